@@ -23,12 +23,22 @@ class AnalysisBroken(Exception):
     pass
 
 
+# configurations of the front end: the reference one (always) and the ones the thorough tier adds
+REFERENCE = ('c++20', ())
+THOROUGH = [('c++17', ()), ('c++11', ()), ('c++20', ('-funsigned-char',)), ('c++20', ('-DST_DEFAULT_VALIDATION=ST::substitute_invalid',))]
+
+
+def config_label(cfg):
+    return cfg[0] + (' ' + ' '.join(cfg[1]) if cfg[1] else '')
+
+
 class Run(object):
-    def __init__(self, prop, tier, seed=0, replay=None):
+    def __init__(self, prop, tier, seed=0, replay=None, config=REFERENCE):
         self.prop = prop
         self.tier = tier
         self.seed = seed
         self.replay = replay
+        self.config = config
         self.obs = []
         self.notes = {}
         self.samples = []
@@ -41,7 +51,9 @@ class Run(object):
         self._effects = {}
 
     # ---------------------------------------------------------------- shared artefacts
-    def module(self, std='c++20', extra_flags=(), tu='driver.cpp'):
+    def module(self, std=None, extra_flags=None, tu='driver.cpp'):
+        std = std or self.config[0]
+        extra_flags = self.config[1] if extra_flags is None else extra_flags
         key = (std, tuple(extra_flags), tu)
         if key not in self._module:
             try:
@@ -81,6 +93,10 @@ class Run(object):
 
     def floor(self, what, found, minimum):
         self.counts[what] = found
+        if found < minimum and self.config != REFERENCE:
+            # older language levels define fewer overloads (no char8_t, no string_view ...): the floors are those of the reference
+            # configuration and are enforced there only
+            return
         if found < minimum:
             raise AnalysisBroken('instance floor missed: %s: found %d, need at least %d '
                                  '(an anchor vanished or the rule no longer matches the code)' % (what, found, minimum))
@@ -204,6 +220,30 @@ def main(argv=None):
         traceback.print_exc()
         print('ANALYSIS-BROKEN property=%s: internal error in the checker (see traceback)' % prop)
         return 2
+    configs = [config_label(REFERENCE)]
+    if a.tier == 'thorough' and replay is None:
+        # the same rules under the other language levels / char signedness / default validation mode the headers are written for;
+        # obligations are merged (the configuration becomes part of the case), instance floors are those of the reference run
+        for cfg in THOROUGH:
+            sub = Run(prop, a.tier, seed, config=cfg)
+            lab = config_label(cfg)
+            try:
+                mod.check(sub)
+            except AnalysisBroken as e:
+                # fewer instances under an older language level (no char8_t, no string_view) trip the reference floors: the rules
+                # that ran before the floor are kept, the rest is reported as not analysed in this configuration
+                sub.obs.append(dict(rule='config', subject=lab, verdict='undecided', detail='stopped in this configuration: %s' % (str(e)[:200],), disc='', loc=''))
+            except Exception:
+                traceback.print_exc()
+                print('ANALYSIS-BROKEN property=%s: internal error in the checker under configuration %s (see traceback)' % (prop, lab))
+                return 2
+            for o in sub.obs:
+                o['disc'] = ('[%s] ' % lab) + (o['disc'] or '')
+                run.obs.append(o)
+            for k, v in sub.counts.items():
+                run.counts['%s [%s]' % (k, lab)] = v
+            configs.append(lab)
+    run.notes['configurations'] = configs
     known = load_known()
     viol = [o for o in run.obs if o['verdict'] == 'violated']
     und = [o for o in run.obs if o['verdict'] == 'undecided']
